@@ -176,6 +176,26 @@ func dumpGenome(g *genetics.Genome) *JGenome {
 		}
 	}
 	for _, gn := range g.Genes {
+		if gn.Link == nil || gn.Link.InNode == nil || gn.Link.OutNode == nil {
+			// a gene without an endpoint object (cannot be built through the API; a defective reader can produce it):
+			// dump it with the impossible node id -1<<30 so that every predicate on endpoints fails, and do not dereference
+			src, dst := -(1 << 30), -(1 << 30)
+			rec, w := false, uint64(0)
+			var tr *int
+			if gn.Link != nil {
+				if gn.Link.InNode != nil {
+					src = gn.Link.InNode.Id
+				}
+				if gn.Link.OutNode != nil {
+					dst = gn.Link.OutNode.Id
+				}
+				rec, w, tr = gn.Link.IsRecurrent, bits(gn.Link.ConnectionWeight), traitRef(gn.Link.Trait)
+			}
+			j.Genes = append(j.Genes, JGene{Inn: gn.InnovationNum, Src: src, Dst: dst, Rec: rec, W: w, Mut: bits(gn.MutationNum),
+				En: gn.IsEnabled, Trait: tr})
+			why(fmt.Sprintf("gene %d: missing endpoint object", gn.InnovationNum))
+			continue
+		}
 		j.Genes = append(j.Genes, JGene{Inn: gn.InnovationNum, Src: gn.Link.InNode.Id, Dst: gn.Link.OutNode.Id,
 			Rec: gn.Link.IsRecurrent, W: bits(gn.Link.ConnectionWeight), Mut: bits(gn.MutationNum), En: gn.IsEnabled,
 			Trait: traitRef(gn.Link.Trait)})
